@@ -463,8 +463,7 @@ struct Visitor : RecursiveASTVisitor<Visitor> {
   }
   bool VisitEnumDecl(EnumDecl *E) {
     if (!E->isThisDeclarationADefinition()) return true;
-    if (!X.SM.getFilename(X.SM.getExpansionLoc(E->getLocation())).contains("/repo")) { /* keep only project enums */
-      if (!inMain(E->getLocation())) return true; }
+    if (X.SM.isInSystemHeader(X.SM.getExpansionLoc(E->getLocation()))) return true; /* keep only project enums */
     json::Array Cs;
     for (const EnumConstantDecl *EC : E->enumerators()) { json::Object CO; CO["name"] = EC->getNameAsString(); CO["v"] = (int64_t)EC->getInitVal().getExtValue(); Cs.push_back(std::move(CO)); }
     std::string n = E->getNameAsString(); if (n.empty()) n = "anon@" + X.loc(E->getLocation());
